@@ -267,3 +267,9 @@ func vDeniedFP() string {
 	}
 	return fp
 }
+
+// vDenyList: the operator's deny list as configured: several entries, not
+// sorted (nothing says it has to be), the key used by the harness in the middle.
+func vDenyList() []string {
+	return []string{"SHA256:zzzzzzzzzzzzzzzzzzzzzzzzzzzzzzzzzzzzzzzzzzz", vDeniedFP(), "SHA256:+++++++++++++++++++++++++++++++++++++++++++"}
+}
